@@ -12,8 +12,17 @@ Regenerated (translated from the ast, so that an edit changes the Coq term):
 Pinned with expect_same (any change = translation failure, handled like a broken proof): the effect
 statements on each path (del, os.remove, open/pickle.load, the OrderedDict store), cache_size, clear(),
 the initial state in __init__/_init_cache, the order lookup -> cached return -> lazy evaluation -> body -> store.
-Not pinned on purpose: _memkey/_serialize_* (the key derivation is a Section variable of the theorems; its
-injectivity on the argument alphabet is checked on the running implementation by harness/c20.py).
+Key derivation (_memkey / _serialize_obj / _serialize_args / _serialize_kwargs):
+  k_serialize_obj   the dispatch chain of _serialize_obj as a decision over the answers to its six tests
+                    (callable, hasattr __name__, dict, Sequence, basestring, DataMatrix) -> which branch
+                    produces the serialisation (string constants are carried into the term)
+  k_kwsort_key      the `key=` lambda of sorted(...) in _serialize_kwargs
+  k_memkey_parts    the elements (and their order) of the list whose repr() is hashed by _memkey
+Pinned: the list comprehension of _serialize_args, the dict comprehension of _serialize_kwargs around the
+lambda (sorted over kwargs.items(), no reverse=, values through _serialize_obj), `import json_tricks`, the
+calls json_tricks.dumps(obj) / cnv.to_json(obj) (their results are modelled by explicit printers in
+Model/MemoKey.v), hashlib.md5(repr(...).encode('utf-8')).hexdigest() (md5 is a Section hypothesis of the
+theorems, repr a printer of the model), the imports that give Sequence, DataMatrix, cnv, basestring their meaning.
 """
 import ast
 from py2coq import TranslationError, Env, tr, tr_typed, find_function, body_nodoc, expect_same, dump, parse_stmt
@@ -22,7 +31,8 @@ from kernels_common import HEADER, load
 FILE = 'KMemo.v'
 REL = 'datamatrix/_functional/_memoize.py'
 
-PRELUDE = '''From Coq Require Import ZArith List Bool.
+PRELUDE = '''From Coq Require Import ZArith List Bool String.
+Import ListNotations.
 Open Scope Z_scope.
 
 Inductive src := SDisk | SMem.
@@ -30,6 +40,8 @@ Inductive src := SDisk | SMem.
 Record rdec := { r_hit : option src; r_reset : bool; r_delmem : bool; r_deldisk : bool }.
 (* decision of _write_cache: file written, OrderedDict store, eviction loop entered *)
 Record wdec := { w_disk : bool; w_mem : bool; w_evict : bool }.
+(* which branch of _serialize_obj produces the serialisation of an object *)
+Inductive sbranch := BName | BLit (s : string) | BKwargs | BArgs | BToJson | BDumps.
 
 '''
 
@@ -153,6 +165,160 @@ def write_block(stmts, eff, kern):
     raise TranslationError('_write_cache: statement outside the grammar: `%s`' % ast.unparse(st).split('\n')[0])
 
 
+
+# ------------------------------------------------------------ key derivation
+SER_ENV = Env([
+    ('callable(obj)', 'is_callable', 'bool'),
+    ("hasattr(obj, '__name__')", 'has_name', 'bool'),
+    ('isinstance(obj, dict)', 'is_dict', 'bool'),
+    ('isinstance(obj, Sequence)', 'is_seq', 'bool'),
+    ('isinstance(obj, basestring)', 'is_str', 'bool'),
+    ('isinstance(obj, DataMatrix)', 'is_dm', 'bool'),
+])
+SER_RET = Env([
+    ('obj.__name__', 'BName', 'sbranch'),
+    ('self._serialize_kwargs(obj)', 'BKwargs', 'sbranch'),
+    ('self._serialize_args(obj)', 'BArgs', 'sbranch'),
+    ('cnv.to_json(obj)', 'BToJson', 'sbranch'),
+    ('json_tricks.dumps(obj)', 'BDumps', 'sbranch'),
+])
+
+
+def coq_string(s):
+    if not all(0x20 <= ord(c) <= 0x7e for c in s):
+        raise TranslationError('string constant outside printable ASCII: %r' % (s,))
+    return '"' + s.replace('"', '""') + '"%string'
+
+
+def ser_ret(node):
+    if isinstance(node, ast.Constant) and isinstance(node.value, str):
+        return '(BLit %s)' % coq_string(node.value)
+    if isinstance(node, ast.IfExp):
+        return '(if %s then %s else %s)' % (tr_typed(node.test, SER_ENV, 'bool'), ser_ret(node.body), ser_ret(node.orelse))
+    hit = SER_RET.lookup(node)
+    if hit is None:
+        raise TranslationError('_serialize_obj: unexpected return value `%s`' % ast.unparse(node))
+    return hit[0]
+
+
+def ser_block(stmts):
+    if not stmts:
+        raise TranslationError('_serialize_obj: a path falls off the end without return')
+    st, rest = stmts[0], stmts[1:]
+    if isinstance(st, ast.Import):
+        expect_same(st, 'import json_tricks')
+        return ser_block(rest)
+    if isinstance(st, ast.Return):
+        if st.value is None:
+            raise TranslationError('_serialize_obj: bare return')
+        return ser_ret(st.value)
+    if isinstance(st, ast.If):
+        test = tr_typed(st.test, SER_ENV, 'bool')
+        a = ser_block(list(st.body) + rest)
+        b = ser_block(list(st.orelse) + rest)
+        return '(if %s\n   then %s\n   else %s)' % (test, a, b)
+    raise TranslationError('_serialize_obj: statement outside the grammar: `%s`' % ast.unparse(st).split('\n')[0])
+
+
+def lam_expr(node, var):
+    """body of the sort-key lambda: repr(e) | kv[0] | kv[1]"""
+    if isinstance(node, ast.Call) and isinstance(node.func, ast.Name) and node.func.id == 'repr' \
+            and len(node.args) == 1 and not node.keywords:
+        return '(repr %s)' % lam_expr(node.args[0], var)
+    if isinstance(node, ast.Subscript) and isinstance(node.value, ast.Name) and node.value.id == var \
+            and isinstance(node.slice, ast.Constant) and node.slice.value in (0, 1) \
+            and not isinstance(node.slice.value, bool):
+        return '(%s kv)' % ('fst' if node.slice.value == 0 else 'snd')
+    raise TranslationError('_serialize_kwargs: sort key outside the grammar: `%s`' % ast.unparse(node))
+
+
+def gen_key(tree, out):
+    # what the names used by the dispatch chain mean
+    mod_src = [ast.unparse(s) for s in tree.body]
+    for need in ('from datamatrix.py3compat import *', 'from datamatrix import DataMatrix, convert as cnv',
+                 'try:\n    from collections.abc import Sequence\nexcept ImportError:\n    from collections import Sequence',
+                 'import hashlib'):
+        if need not in mod_src:
+            raise TranslationError('_memoize.py: missing module-level `%s`' % need.split('\n')[0])
+    for s in tree.body:
+        for t in (s.targets if isinstance(s, ast.Assign) else []):
+            if isinstance(t, ast.Name) and t.id in ('Sequence', 'DataMatrix', 'cnv', 'basestring', 'hashlib', 'repr',
+                                                      'callable', 'isinstance', 'hasattr', 'sorted'):
+                raise TranslationError('_memoize.py: module-level rebinding of %s' % t.id)
+
+    fn = find_function(tree, 'memoize._serialize_obj')
+    if [a.arg for a in fn.args.args] != ['self', 'obj'] or fn.args.vararg or fn.args.kwarg or fn.decorator_list:
+        raise TranslationError('_serialize_obj: signature')
+    out.append('(* _serialize_obj: the dispatch chain *)\n'
+               'Definition k_serialize_obj (is_callable has_name is_dict is_seq is_str is_dm : bool) : sbranch :=\n  %s.\n\n'
+               % ser_block(body_nodoc(fn)))
+
+    fn = find_function(tree, 'memoize._serialize_args')
+    if [a.arg for a in fn.args.args] != ['self', 'args'] or fn.args.vararg or fn.args.kwarg or fn.decorator_list:
+        raise TranslationError('_serialize_args: signature')
+    b = body_nodoc(fn)
+    if len(b) != 1:
+        raise TranslationError('_serialize_args: unexpected statements')
+    expect_same(b[0], 'return [self._serialize_obj(arg) for arg in args]')
+
+    fn = find_function(tree, 'memoize._serialize_kwargs')
+    if [a.arg for a in fn.args.args] != ['self', 'kwargs'] or fn.args.vararg or fn.args.kwarg or fn.decorator_list:
+        raise TranslationError('_serialize_kwargs: signature')
+    b = body_nodoc(fn)
+    if len(b) != 1 or not isinstance(b[0], ast.Return) or not isinstance(b[0].value, ast.DictComp):
+        raise TranslationError('_serialize_kwargs: expected one dict comprehension')
+    dc = b[0].value
+    if len(dc.generators) != 1:
+        raise TranslationError('_serialize_kwargs: generators')
+    g = dc.generators[0]
+    if g.ifs or g.is_async or ast.unparse(g.target) not in ('key, val', '(key, val)') or not same(dc.key, 'key') \
+            or not same(dc.value, 'self._serialize_obj(val)'):
+        raise TranslationError('_serialize_kwargs: comprehension is not {key: self._serialize_obj(val) for key, val in ...}')
+    it = g.iter
+    if not (isinstance(it, ast.Call) and same(it.func, 'sorted') and len(it.args) == 1 and same(it.args[0], 'kwargs.items()')
+            and len(it.keywords) == 1 and it.keywords[0].arg == 'key' and isinstance(it.keywords[0].value, ast.Lambda)):
+        raise TranslationError('_serialize_kwargs: expected sorted(kwargs.items(), key=lambda ...)')
+    lam = it.keywords[0].value
+    la = lam.args
+    if len(la.args) != 1 or la.vararg or la.kwarg or la.kwonlyargs or la.defaults or la.posonlyargs:
+        raise TranslationError('_serialize_kwargs: lambda signature')
+    out.append('(* key=lambda ... of sorted(kwargs.items(), ...) in _serialize_kwargs *)\n'
+               'Definition k_kwsort_key {Kt Vt T : Type} (repr : Kt -> T) (kv : Kt * Vt) : T :=\n  %s.\n\n'
+               % lam_expr(lam.body, la.args[0].arg))
+
+    fn = find_function(tree, 'memoize._memkey')
+    if [a.arg for a in fn.args.args] != ['self'] or fn.args.vararg is None or fn.args.vararg.arg != 'args' \
+            or fn.args.kwarg is None or fn.args.kwarg.arg != 'kwargs' or fn.decorator_list:
+        raise TranslationError('_memkey: signature')
+    b = body_nodoc(fn)
+    if len(b) != 1 or not isinstance(b[0], ast.Return):
+        raise TranslationError('_memkey: unexpected statements')
+    v = b[0].value
+    # hashlib.md5(repr(<list>).encode(u'utf-8')).hexdigest()
+    try:
+        lst = v.func.value.args[0].func.value.args[0]
+    except (AttributeError, IndexError):
+        raise TranslationError('_memkey: expected hashlib.md5(repr([...]).encode(...)).hexdigest()')
+    if not isinstance(lst, ast.List):
+        raise TranslationError('_memkey: the hashed text is not the repr of a list display')
+    skeleton = ast.parse("hashlib.md5(repr(PARTS).encode(u'utf-8')).hexdigest()", mode='eval').body
+    probe = ast.parse(ast.unparse(v), mode='eval').body
+    probe.func.value.args[0].func.value.args[0] = ast.Name('PARTS', ast.Load())
+    if dump(probe) != dump(skeleton):
+        raise TranslationError("_memkey: expected hashlib.md5(repr([...]).encode(u'utf-8')).hexdigest(), found `%s`"
+                               % ast.unparse(v))
+    penv = Env([('self._fnc.__name__', 'name', 'part'), ('self._serialize_args(args)', 'sargs', 'part'),
+                ('self._serialize_kwargs(kwargs)', 'skwargs', 'part')])
+    parts = []
+    for e in lst.elts:
+        hit = penv.lookup(e)
+        if hit is None:
+            raise TranslationError('_memkey: unexpected element `%s` in the hashed list' % ast.unparse(e))
+        parts.append(hit[0])
+    out.append('(* the list whose repr() is hashed by _memkey *)\n'
+               'Definition k_memkey_parts {T : Type} (name sargs skwargs : T) : list T :=\n  [%s].\n' % '; '.join(parts))
+
+
 def gen(repo):
     tree = load(repo, REL)
     out = [HEADER % REL, PRELUDE]
@@ -245,5 +411,6 @@ def gen(repo):
     out.append('(* _write_cache *)\nDefinition k_write_cache (persistent on_disk : bool) : wdec :=\n  %s.\n\n' % wr)
     out.append('(* while <test>: in the eviction loop *)\n'
                'Definition k_evict_test (cache_size max_size : Z) : bool := %s.\n\n' % kern['test'])
-    out.append('(* self._cache.popitem(last=...) *)\nDefinition k_pop_last : bool := %s.\n' % kern['last'])
+    out.append('(* self._cache.popitem(last=...) *)\nDefinition k_pop_last : bool := %s.\n\n' % kern['last'])
+    gen_key(tree, out)
     return ''.join(out)
